@@ -793,6 +793,11 @@ impl<K: Kind> Scenario for Bf<K> {
                 }
                 inner.to_string()
             }
+            "rcchk" => {
+                // the reference-count oracle on the current store (garbage included); prints `ok`
+                let _ = self.step("dump", ctx);
+                "ok".into()
+            }
             "nodes" => self.mref().with_manager_shared(|m| m.num_inner_nodes()).to_string(),
             "dump" => {
                 // all stored inner nodes with their reference counts, sorted; oracle (C05): the
